@@ -80,10 +80,26 @@ func c05(r *rand.Rand, tier string, tr *trace.Buf, extra map[string]interface{})
 		nsigs = 6
 	}
 	classes := map[string]int{}
-	for s := 0; s < nsigs; s++ {
+	hasPos := func(sig [dilithium.CryptoBytes]uint8, want byte) bool {
+		h := sig[hintOff:]
+		for i := 0; i < int(h[omega+7]) && i < omega; i++ {
+			if h[i] == want {
+				return true
+			}
+		}
+		return false
+	}
+	for s := 0; s < nsigs+2; s++ {
 		msg := make([]byte, 1+r.Intn(100))
 		r.Read(msg)
 		sig, _ := d.Sign(msg)
+		if s >= nsigs { // a signature whose hint vector contains position 255 resp. 0 (corner cases of the ordering check)
+			want := byte(255 * (nsigs + 1 - s))
+			for try := 0; try < 200 && !hasPos(sig, want); try++ {
+				r.Read(msg)
+				sig, _ = d.Sign(msg)
+			}
+		}
 		tr.Emit(check("genuine", msg, sig, &pk, false, true))
 		tr.Emit(check("wrong-message", append(dup(msg), 0), sig, &pk, true, true))
 		tr.Emit(check("empty-message", []byte{}, sig, &pk, true, true))
@@ -183,6 +199,25 @@ func c05(r *rand.Rand, tier string, tr *trace.Buf, extra map[string]interface{})
 			classes[class]++
 			tr.Emit(check(class, msg, c, &pk, true, true))
 		}
+		// the same hint vector written non-canonically, at EVERY position: adjacent swap, duplicate inserted
+		for row := 0; row < 8; row++ {
+			lo, hi := cnt(row-1), cnt(row)
+			for p := lo; p < hi; p++ {
+				p, row := p, row
+				if p+1 < hi {
+					emitHint("hint-swap-adjacent-all", func(b []byte) { b[p], b[p+1] = b[p+1], b[p] })
+				}
+				if cnt(7) < omega {
+					emitHint("hint-duplicate-inserted-all", func(b []byte) {
+						total := cnt(7)
+						copy(b[p+1:total+1], append([]byte{}, b[p:total]...))
+						for i := row; i < 8; i++ {
+							b[omega+i]++
+						}
+					})
+				}
+			}
+		}
 		for row := 0; row < 8; row++ {
 			lo, hi := cnt(row-1), cnt(row)
 			if hi-lo >= 2 {
@@ -229,6 +264,24 @@ func c05(r *rand.Rand, tier string, tr *trace.Buf, extra map[string]interface{})
 				emitHint("hint-nonzero-padding", func(b []byte) { b[p] = byte(1 + r.Intn(255)) })
 			}
 		}
+		// several padding bytes at once: values that cancel under +, xor, or a carry-less accumulator
+		if omega-last >= 2 {
+			for _, pat := range [][]byte{{0x80, 0x80}, {0x01, 0xff}, {0x55, 0x55}, {0x40, 0x40, 0x80}, {0xff, 0xff}, {0x10, 0xf0}, {0x7f, 0x81}} {
+				if omega-last < len(pat) {
+					continue
+				}
+				pat := pat
+				emitHint("hint-padding-cancelling", func(b []byte) { copy(b[last:], pat) })
+				emitHint("hint-padding-cancelling-end", func(b []byte) { copy(b[omega-len(pat):omega], pat) })
+			}
+			emitHint("hint-padding-all-0x80", func(b []byte) {
+				n := (omega - last) &^ 1
+				for i := 0; i < n; i++ {
+					b[last+i] = 0x80
+				}
+			})
+			emitHint("hint-padding-random", func(b []byte) { r.Read(b[last:omega]) })
+		}
 		if last < omega {
 			emitHint("hint-all-counts-plus-one", func(b []byte) { // appends index 0 (a padding byte) to the last row
 				b[omega+7] = byte(last + 1)
@@ -240,6 +293,41 @@ func c05(r *rand.Rand, tier string, tr *trace.Buf, extra map[string]interface{})
 			}
 		})
 		emitHint("hint-random", func(b []byte) { r.Read(b) })
+	}
+	// message-length sweep: for every length the genuine pair verifies and no variant of the message does
+	maxLen := 300
+	if tier == "thorough" {
+		maxLen = 1200
+	}
+	lens := []int{}
+	for L := 0; L <= maxLen; L++ {
+		lens = append(lens, L)
+	}
+	for _, c := range []int{640, 1024, 2592, 4595, 4864, 2 * 4595} {
+		for dd := -34; dd <= 3; dd++ {
+			if c+dd > maxLen {
+				lens = append(lens, c+dd)
+			}
+		}
+	}
+	for _, L := range lens {
+		msg := make([]byte, L)
+		r.Read(msg)
+		sig, _ := d.Sign(msg)
+		tr.Emit(check("len-genuine", msg, sig, &pk, false, true))
+		vars := [][]byte{append(dup(msg), 0), append(dup(msg), byte(1+r.Intn(255)))}
+		if L > 0 {
+			a := dup(msg)
+			a[L-1] ^= 1
+			b := dup(msg)
+			b[0] ^= 0x80
+			c := dup(msg)
+			c[r.Intn(L)] ^= byte(1 << uint(r.Intn(8)))
+			vars = append(vars, a, b, c, msg[:L-1])
+		}
+		for _, v := range vars {
+			tr.Emit(check("len-message-variant", v, sig, &pk, true, true))
+		}
 	}
 	// signatures made with the secret key by a signer that skips one signing-side test
 	nskip := 4
